@@ -7,6 +7,7 @@ import JominiModel.Proofs.BinEndToEnd
 import JominiModel.Proofs.BinDeNested
 import JominiModel.Proofs.BinEndToEndLex
 import JominiModel.Proofs.BinEndToEndAll
+import JominiModel.Proofs.BinDeMixed
 /-
 C04 — binary deserialization agrees across tape, on-demand and streaming paths.
 Helper lemmas: Proofs/BinDe.lean (dispatch), Proofs/BinDeSeq.lean (sequential readers).
@@ -132,5 +133,19 @@ theorem C04_eq_spec_partial (c : Cfg) (vt : Ty) (hvt : LeafTy vt) (d : BDoc) (h 
 
 example : Flat (.cons 0 (.id 8192) (.leaf (.i32 5)) (.cons 0 (.quoted [98]) (.leaf (.f32 [220, 5, 0, 0])) .nil)) := by
   simp [Flat, BLeaf.tok, plainTok, RGB_ID]
+
+/-- object→array mixed containers, sequential paths: `k v` is read like `k = v` (trailing scalars are paired). -/
+theorem C04_seq_equal_optional_map : type_of% @BinDe.C04_seq_equal_optional_map := @BinDe.C04_seq_equal_optional_map
+
+/-- object→array mixed containers, tape path: the `MixedContainer` marker in key position is `invalid type` for a
+map request … -/
+theorem C04_mixed_tape_key_map : type_of% @BinDe.C04_mixed_tape_key_map := @BinDe.C04_mixed_tape_key_map
+
+/-- … and for a struct request (plain or token-attribute). -/
+theorem C04_mixed_tape_key_struct : type_of% @BinDe.C04_mixed_tape_key_struct := @BinDe.C04_mixed_tape_key_struct
+
+/-- NEGATIVE: on `a = { b = 1  c 2 }` read as `map(map(i32))` the sequential path models answer `{a={b=1,c=2}}`, the
+tape path model `invalid type` (the real code does the same: known finding mixed-container-paths-disagree). -/
+theorem C04_mixed_paths_differ : type_of% @BinDe.C04_mixed_paths_differ := @BinDe.C04_mixed_paths_differ
 
 end Jomini.Props.C04
